@@ -10,6 +10,7 @@ use crate::uci::Flounder;
 use crate::zobrist::ZobristTable;
 
 pub struct ImplState {
+    pub mg: crate::move_gen::MoveGenerator,
     pub tt: TranspositionTable,
     pub evaluator: Evaluator,
     pub zobrist: ZobristTable,
@@ -43,7 +44,7 @@ pub fn zobrist_keys_text(z: &ZobristTable) -> String {
 
 impl ImplState {
     pub fn new() -> Self {
-        ImplState { tt: TranspositionTable::new(), evaluator: Evaluator::new(), zobrist: ZobristTable::new(), uci: Flounder::new() }
+        ImplState { mg: crate::move_gen::MoveGenerator::new(), tt: TranspositionTable::new(), evaluator: Evaluator::new(), zobrist: ZobristTable::new(), uci: Flounder::new() }
     }
 
     pub fn apply(&mut self, line: &str) -> String {
@@ -63,6 +64,57 @@ impl ImplState {
             "tt.get" if t.len() == 2 => match t[1].parse::<u64>() {
                 Ok(k) => entry_text(self.tt.retrieve(k)),
                 _ => "bad-op".into(),
+            },
+            // ------------------------------------------------------------ C10
+            "c10.slide" if t.len() == 4 => match (parse_piece(t[1]), t[2].parse::<u8>(), t[3].parse::<u64>()) {
+                (Some(p), Ok(sq), Ok(occ)) if sq < 64 => self.mg.lookup.sliding_moves(sq, occ, p).to_string(),
+                _ => "bad-op".into(),
+            },
+            "c10.leaper" if t.len() == 2 => match t[1].parse::<u8>() {
+                Ok(sq) if sq < 64 => format!("{} {}", self.mg.lookup.non_sliding_moves(sq, Piece::Knight), self.mg.lookup.non_sliding_moves(sq, Piece::King)),
+                _ => "bad-op".into(),
+            },
+            "c10.between" if t.len() == 3 => match (t[1].parse::<u8>(), t[2].parse::<u8>()) {
+                (Ok(a), Ok(b)) if a < 64 && b < 64 => format!("{} {}", self.mg.lookup.between(a, b, true), self.mg.lookup.between(a, b, false)),
+                _ => "bad-op".into(),
+            },
+            "c10.mask" if t.len() == 3 => match (parse_piece(t[1]), t[2].parse::<usize>()) {
+                (Some(p), Ok(sq)) if sq < 64 => {
+                    let m = &self.mg.lookup.magic_table;
+                    if p == Piece::Bishop { format!("{} {} {}", m.bishop_attack_masks[sq], m.bishop_magics[sq], crate::magic::verif_relevant_bits(true, sq)) }
+                    else { format!("{} {} {}", m.rook_attack_masks[sq], m.rook_magics[sq], crate::magic::verif_relevant_bits(false, sq)) }
+                }
+                _ => "bad-op".into(),
+            },
+            // ------------------------------------------------------------ C01 / C02 / C17
+            "gen" if t.len() == 2 => match parse_board(t[1]) {
+                Some(b) => self.mg.generate_moves(&b).iter().map(mv_text).collect::<Vec<_>>().join(" "),
+                None => "bad-op".into(),
+            },
+            "legal" if t.len() == 2 => match parse_board(t[1]) {
+                Some(b) => sorted_moves(&self.mg.generate_moves(&b)),
+                None => "bad-op".into(),
+            },
+            "incheck" if t.len() == 2 => match parse_board(t[1]) {
+                Some(b) => self.mg.is_in_check(&b).to_string(),
+                None => "bad-op".into(),
+            },
+            "qmoves" if t.len() == 2 => match parse_board(t[1]) {
+                Some(b) => sorted_moves(&self.mg.generate_quiescence_moves(&b)),
+                None => "bad-op".into(),
+            },
+            // the move list search_until_quiet itself selects (observed inside the search through a hook)
+            "qset" if t.len() == 2 => match parse_board(t[1]) {
+                Some(b) => sorted_moves(&self.uci.verif_searcher().verif_quiescence_move_set(&b)),
+                None => "bad-op".into(),
+            },
+            "play" if t.len() == 3 => match (parse_board(t[1]), parse_mv(t[2])) {
+                (Some(b), Some(m)) => board_text(&b.clone_with_move(&m)),
+                _ => "bad-op".into(),
+            },
+            "valid" if t.len() == 2 => match parse_board(t[1]) {
+                Some(b) => crate::refchess::valid(&b).to_string(),
+                None => "bad-op".into(),
             },
             // ------------------------------------------------------------ C14
             // one shared Evaluator for the whole run: earlier calls must not influence later ones
